@@ -1,2 +1,2 @@
-import C2paModel.Model.C04
-def main : IO Unit := C2pa.runDriver C2pa.C04.handle
+import C2paModel.Model.C04Store
+def main : IO Unit := C2pa.runDriver C2pa.C04.handleStore
